@@ -1,6 +1,7 @@
 import TsRsVerif.Model.Deps
 import TsRsVerif.Lemmas.ImportLemmas
 import TsRsVerif.Lemmas.DepsLemmas
+import TsRsVerif.Lemmas.DepsGeneric
 /-!
 # C03 — exported files import exactly the names they use, from where they live
 
@@ -12,7 +13,12 @@ representation, rename / tag / skip / optional, any library types around user ty
 arguments) the names `dependencies()` visits are EXACTLY the names the declaration mentions — nothing missing, nothing
 unused (`Lemmas/UsedNames.lean`: mentioned = visited for every type expression; `Lemmas/DepsLemmas.lean`: per field,
 variant, item). Its hypotheses exclude exactly the recorded findings (zero-length arrays, `inline` / `flatten`).
-PARTIAL: generic items themselves, `inline`, `flatten`, `as`; there the claim is decided on every run by the closure
+`C03_generic_imports_exactly_used`: the same for GENERIC items — the file of `G<T>` is generated from `G<Dummy>`
+(`T::WithoutGenerics`), the names visited are exactly the declarations the generic body refers to, the parameters themselves are
+bound by the header (`Lemmas/DepsGeneric.lean`: visiting at arguments = visiting the instance; renaming parameters changes nothing).
+`C03_generic_with_defaults`: with defaults of type parameters the names visited are those of the body together with those of the
+defaults — both are written in the declaration (`type G<A, B = D> = body`).
+PARTIAL: `concrete`, `inline`, `flatten`, `as`; there the claim is decided on every run by the closure
 oracle over the real exported directories (independent TypeScript reader), and the four known exceptions are recorded
 as findings with witnesses.
 -/
@@ -104,6 +110,51 @@ theorem C03_imports_exactly_used (cfg : Cfg) (env : Env) (it : Item) (f : Nat) (
     (hb : Tree.itemBody cfg env it = some body) :
     ∀ n, n ∈ idents (visitDeps env (f + 1) (.named it.name [])) ↔ n ∈ refNames body :=
   item_visit cfg env it f body hfind hg hta hto hv hp hpv hb
+
+/-- **… and for a generic item**: what `generate_imports::<T::WithoutGenerics>` visits (the item at the placeholder `Dummy` for every
+parameter) are exactly the names of declarations its generic body refers to; type parameters are bound by the declaration's own
+header and are not imported. For items of the fragment without parameter defaults and without `concrete`. -/
+theorem C03_generic_imports_exactly_used (cfg : Cfg) (env : Env) (it : Item) (f : Nat) (body : Ts)
+    (hfind : env.find it.name = some it) (hdef : ∀ g ∈ it.generics, g.default = none) (hconc : it.attr.concrete = [])
+    (hta : it.attr.typeAs = none) (hto : it.attr.typeOverride = none)
+    (hv : ∀ v ∈ it.variants, v.attr.typeAs = none ∧ v.attr.typeOverride = none)
+    (hp : ∀ fld ∈ it.fields, PlainField env f fld) (hpv : ∀ v ∈ it.variants, ∀ fld ∈ v.fields, PlainField env f fld)
+    (hS : it.isEnum = false → it.shape = .named → it.fields.all (Tree.fieldOkN cfg it.attr.renameAll it.attr.optionalFields) = true)
+    (hE : it.isEnum = true → ∀ v ∈ it.variants, v.shape = .named → v.fields.all (Tree.fieldOkN cfg (Tree.renameAllT it v) .no) = true)
+    (hb : Tree.itemBody cfg env it = some body) :
+    ∀ n, n ∈ idents (visitDeps env (f + 1) (withoutGenerics it)) ↔ n ∈ refNames body :=
+  item_visit_generic cfg env it f body hfind hdef hconc hta hto hv hp hpv hS hE hb
+
+/-- **… with defaults of type parameters**: the declaration `type G<A, B = D> = body` mentions the names of the body and the names of
+the defaults; those, and only those, are visited (hence imported) -/
+theorem C03_generic_with_defaults (cfg : Cfg) (env : Env) (it : Item) (f : Nat) (body : Ts)
+    (hfind : env.find it.name = some it) (hconc : it.attr.concrete = [])
+    (hdef : ∀ g ∈ it.generics, ∀ d, g.default = some d → tyWF env d = true ∧ depthR d < f ∧ (Tree.tyTs cfg env d).isSome)
+    (hta : it.attr.typeAs = none) (hto : it.attr.typeOverride = none)
+    (hv : ∀ v ∈ it.variants, v.attr.typeAs = none ∧ v.attr.typeOverride = none)
+    (hp : ∀ fld ∈ it.fields, PlainField env f fld) (hpv : ∀ v ∈ it.variants, ∀ fld ∈ v.fields, PlainField env f fld)
+    (hS : it.isEnum = false → it.shape = .named → it.fields.all (Tree.fieldOkN cfg it.attr.renameAll it.attr.optionalFields) = true)
+    (hE : it.isEnum = true → ∀ v ∈ it.variants, v.shape = .named → v.fields.all (Tree.fieldOkN cfg (Tree.renameAllT it v) .no) = true)
+    (hb : Tree.itemBody cfg env it = some body) :
+    ∀ n, n ∈ idents (visitDeps env (f + 1) (withoutGenerics it)) ↔ (n ∈ refNames body ∨ n ∈ defaultNames cfg env it) :=
+  item_visit_generic_defaults cfg env it f body hfind hconc hdef hta hto hv hp hpv hS hE hb
+
+/-! non-vacuity: a generic struct over a leaf type and its own parameters -/
+def exGenEnv : Env := [
+  { isEnum := false, name := "L".toList, fields := [{ name := some "v".toList, ty := .prim "u8" }] },
+  { isEnum := false, name := "G".toList, generics := [{ name := "T".toList }, { name := "U".toList }], fields := [
+      { name := some "t".toList, ty := .param "T".toList }, { name := some "l".toList, ty := .vec (.named "L".toList []) },
+      { name := some "m".toList, ty := .map (.prim "String") (.option (.param "U".toList)) }] }]
+#guard idents (visitDeps exGenEnv 6 (withoutGenerics exGenEnv[1]!)) == ["L".toList]
+#guard (Tree.itemBody { ops := Case.asciiOps } exGenEnv exGenEnv[1]!).map refNames == some ["L".toList]
+def exGenEnvD : Env := [
+  { isEnum := false, name := "L".toList, fields := [{ name := some "v".toList, ty := .prim "u8" }] },
+  { isEnum := false, name := "M".toList, fields := [{ name := some "w".toList, ty := .prim "bool" }] },
+  { isEnum := false, name := "H".toList, generics := [{ name := "A".toList }, { name := "B".toList, default := some (.vec (.named "M".toList [])) }], fields := [
+      { name := some "a".toList, ty := .param "A".toList }, { name := some "b".toList, ty := .param "B".toList },
+      { name := some "l".toList, ty := .named "L".toList [] }] }]
+#guard idents (visitDeps exGenEnvD 6 (withoutGenerics exGenEnvD[2]!)) == ["L".toList, "M".toList]
+#guard defaultNames { ops := Case.asciiOps } exGenEnvD exGenEnvD[2]! == ["M".toList]
 
 /-- … for every type expression: what `visit::<T>()` + `visit_generics` reach = what the TypeScript name of `T` mentions -/
 theorem C03_type_mentions_eq_visits (cfg : Cfg) (env : Env) (t : RTy) (T : Ts) (f : Nat)
